@@ -1116,7 +1116,9 @@ impl Element {
     pub fn insert_character_content_item(&self, chardata: &str, position: usize) -> Result<(), AutosarDataError> {
         let mut element = self.0.write();
         if let ContentMode::Mixed = element.elemtype.content_mode() {
-            if position <= element.content.len() {
+            // the SHORT-NAME of an identifiable element always remains the first content item
+            let first_pos = usize::from(element.item_name().is_some());
+            if first_pos <= position && position <= element.content.len() {
                 element.content.insert(
                     position,
                     ElementContent::CharacterData(CharacterData::String(chardata.to_owned())),
